@@ -30,13 +30,17 @@ def impl(case):
     sel = SpikeSelector(get_spikes_per_cluster=lambda c: spc.get(c, np.array([], dtype=np.int64)),
                         spike_times=st, chunk_bounds=grid, n_chunks_kept=case['n_kept'])
     subset = None if case.get('subset') is None else np.array(case['subset'], dtype=np.int64)
-    out = sel(case['count'], case['req'], subset_chunks=case['subset_chunks'], subset_spikes=subset)
+    count, req = case['count'], case['req']
+    if count is not None and case.get('countkind', 'py') != 'py':
+        count = getattr(np, case['countkind'])(count)        # the count as a NumPy integer scalar
+    req = {'list': list, 'tuple': tuple, 'array': lambda r: np.array(r, dtype=np.int64)}[case.get('reqkind', 'list')](req)
+    out = sel(count, req, subset_chunks=case['subset_chunks'], subset_spikes=subset)
     return dict(out=[int(x) for x in out], kept=[int(round(float(x) * g)) for x in sel.chunks_kept],
                 dtype=str(np.asarray(out).dtype))
 
 
 def model_query(case, impl_res):
-    q = {k: v for k, v in case.items() if k not in ('tdtype', 'rs', 'gscale')}
+    q = {k: v for k, v in case.items() if k not in ('tdtype', 'rs', 'gscale', 'countkind', 'reqkind')}
     q['times'] = [t * case.get('gscale', 1) for t in case['times']]
     q['op'] = 'select'
     if 'ok' in impl_res:
@@ -75,6 +79,8 @@ def tally(rep, case, impl_res, ans):
     rep.count('subset_chunks:%s' % case['subset_chunks'])
     rep.count('subset:%s' % (case.get('subset') is not None))
     rep.count('tdtype:%s' % case.get('tdtype', 'int64'))
+    rep.count('count_type:%s' % case.get('countkind', 'py'))
+    rep.count('requested_as:%s' % case.get('reqkind', 'list'))
     rep.count('grid:%s' % ('integer' if case.get('gscale', 1) == 1 else 'fractional(1/%d)' % case['gscale']))
     if case.get('subset') is not None and len(set(case['subset'])) != len(case['subset']):
         rep.count('subset_with_repeats')
@@ -137,7 +143,8 @@ def gen(tier, rng):
         req = [rng.pick(ids + [11, 12]) for _ in range(rng.randrange(0, 5))]
         c = dict(p=PID, times=times, clusters=clusters, bounds=bounds, n_kept=rng.randrange(1, 7),
                  count=rng.pick([None, 0, -1, 1, 2, 5, 100]), req=req, subset_chunks=rng.random() < .7,
-                 subset=None, tdtype=rng.pick(['int64', 'uint64', 'float64']), rs=rng.randrange(10 ** 6))
+                 subset=None, tdtype=rng.pick(['int64', 'uint64', 'float64']), rs=rng.randrange(10 ** 6),
+                 countkind=rng.pick(['py', 'py', 'int64', 'int32', 'intp']), reqkind=rng.pick(['list', 'list', 'tuple', 'array']))
         if rng.random() < .4 and ns:
             c['subset'] = sorted(rng.sample(range(ns), rng.randrange(0, ns + 1)))
             if rng.random() < .3 and c['subset']:
